@@ -1,8 +1,9 @@
 (* Properties_C02.v — ONLY the property theorems for C02 (bounded work, bounded growth).
    Models: Model/LoopModel.v (control skeleton of the rule loop; insert budget), Model/PosModel.v (depth cut-off of finalise),
    Model/VmModel.v (operand stack; see Properties_C07.v for the interpreter theorems). *)
-From GR Require Import Base.Bytes Model.LoopModel Proofs.LoopProofs Gen.GenLoop Proofs.GenAgreeLoop Model.SparseModel Proofs.SparseProofs.
-From Coq Require Import NArith ZArith.
+From GR Require Import Base.Bytes Model.LoopModel Proofs.LoopProofs Gen.GenLoop Proofs.GenAgreeLoop Model.SparseModel Proofs.SparseProofs Model.RuleModel Proofs.LoopBridge.
+From Coq Require Import List NArith ZArith.
+Import ListNotations.
 Local Open Scope N_scope.
 
 (* Every run of the rule loop of a pass that the acceptor admits — i.e. in which the measure "slots from the high-water mark
@@ -52,3 +53,44 @@ Print Assumptions C02_sparse_lookup_in_bounds.
 Theorem C02_sparse_chunk_tied : GenLoop.sparse_chunk_bits = SparseModel.CHUNK.
 Proof. exact gen_sparse_chunk_agrees. Qed.
 Print Assumptions C02_sparse_chunk_tied.
+
+(* ---- the hypothesis of C02_pass_loop_bounded is not only monitored on the engine, it is PROVED of the reference semantics of the
+   rule loop (Model/RuleModel.v: loop_step / loop_run — cursor adjustment, high-water mark, highpassed, loop counter, inserts paid
+   from the budget, deletes — the executable definitions that tools/props/c06.py runs against the engine on compiled rule programs):
+   for every rule set, stream, budget and both kinds of pass, the observation sequence of the loop is admitted by the acceptor. *)
+Theorem C02_reference_loop_accepted : forall adv positioning maxloop rules, (1 <= maxloop)%nat -> forall fuel st, Inv maxloop st ->
+  laccept (N.of_nat maxloop) (mklst (mu st) (N.of_nat (ls_lc st))) (loop_obs adv positioning maxloop rules fuel st) = true.
+Proof. exact loop_obs_accepted. Qed.
+Print Assumptions C02_reference_loop_accepted.
+
+(* Hence a pass over l with a_bud n inserts left makes at most maxloop * (|l| + a_bud n + 1) iterations, whatever the rules do ... *)
+Theorem C02_reference_pass_iterations : forall adv positioning maxloop rules l n fuel, (1 <= maxloop)%nat -> l <> [] ->
+  (length (loop_obs adv positioning maxloop rules fuel (st_init maxloop l (Some n))) <= maxloop * (length l + a_bud n + 1))%nat.
+Proof. exact loop_iterations_bounded. Qed.
+Print Assumptions C02_reference_pass_iterations.
+
+(* ... and always stops by itself: with the fuel run_pass_b gives it, the loop ends with a null cursor (fuel is never what stops it). *)
+Theorem C02_reference_pass_terminates : forall adv positioning maxloop rules l n, (1 <= maxloop)%nat -> l <> [] ->
+  ls_s (loop_run adv positioning maxloop rules (pass_fuel_b maxloop l (Some n)) (st_init maxloop l (Some n))) = None.
+Proof. exact pass_terminates. Qed.
+Print Assumptions C02_reference_pass_terminates.
+
+(* Shaping with the reference semantics either fails (budget exhausted, or a substitution pass ends above the cap) or returns at
+   most 64 slots per input slot. *)
+Theorem C02_reference_growth_cap : forall adv nsubst passes l out, run_passes_adj adv nsubst passes l = Some out -> (length out <= 64 * length l)%nat.
+Proof. exact reference_growth_cap. Qed.
+Print Assumptions C02_reference_growth_cap.
+
+(* non-vacuity: a rule that inserts in front of every 'a' and steps the cursor back onto it loops until the counter runs out at
+   each high-water slot; the run is accepted, ends by itself, and with a second such pass the budget of a 1-slot text is used up *)
+Example C02_example_reference :
+  let adv := fun g : N => 462%Z in
+  let r := mkrule0 0 [[67]]%N [[AInsert 67]] None (-1) in
+  let st0 := st_init 5 [mkslot 67 462 0; mkslot 67 462 0] (Some (alloc0 2)) in
+  Inv 5 st0
+  /\ length (loop_obs adv false 5 [r] 1000 st0) = 10%nat
+  /\ length (ls_l (loop_run adv false 5 [r] 1000 st0)) = 12%nat
+  /\ option_map a_bud (ls_b (loop_run adv false 5 [r] 1000 st0)) = Some 118%nat
+  /\ option_map (@length _) (run_passes_adj adv 1 [(8, [r])]%nat [mkslot 67 462 0]) = Some 9%nat
+  /\ run_passes_adj adv 2 [(8, [r]); (8, [r])]%nat [mkslot 67 462 0] = None.
+Proof. split; [apply st_init_inv; [lia|discriminate]|]. vm_compute. repeat split. Qed.
